@@ -996,12 +996,48 @@ fn eval_sheet(f: &[&str]) -> ImplOut {
             }
         }
     }
-    // values of the formulas the property speaks about
-    let mut checked = 0;
+    // values of the formulas the property speaks about: those that stay in the property's fragment and do
+    // not read (directly or through other formulas) a formula that left it
+    let mut tainted: std::collections::BTreeSet<(u32, i32, i32)> = Default::default();
     for it in &items {
         if let Item::Fml { s, r, c, atoms, .. } = it {
-            let k = (*s, *r, *c);
             if !formula_in_domain(kind, ax, sheet, pos64, n64, d_eff, atoms) {
+                tainted.insert((*s, *r, *c));
+            }
+        }
+    }
+    loop {
+        let mut grew = false;
+        for it in &items {
+            if let Item::Fml { s, r, c, atoms, .. } = it {
+                if tainted.contains(&(*s, *r, *c)) {
+                    continue;
+                }
+                let reads_tainted = atoms.iter().any(|a| match a {
+                    Atom::Ref { sheet: rs, p, .. } => tainted.contains(&(*rs, p.r as i32, p.c as i32)),
+                    Atom::Rng { sheet: rs, a, b, .. } => tainted.iter().any(|t| {
+                        t.0 == *rs
+                            && (t.1 as i64) >= a.r.min(b.r)
+                            && (t.1 as i64) <= a.r.max(b.r)
+                            && (t.2 as i64) >= a.c.min(b.c)
+                            && (t.2 as i64) <= a.c.max(b.c)
+                    }),
+                });
+                if reads_tainted {
+                    tainted.insert((*s, *r, *c));
+                    grew = true;
+                }
+            }
+        }
+        if !grew {
+            break;
+        }
+    }
+    let mut checked = 0;
+    for it in &items {
+        if let Item::Fml { s, r, c, .. } = it {
+            let k = (*s, *r, *c);
+            if tainted.contains(&k) {
                 continue;
             }
             let target = if k.0 == sheet { sig(coord(&k)).map(|y| with_coord(&k, y)) } else { Some(k) };
@@ -1023,26 +1059,50 @@ fn eval_sheet(f: &[&str]) -> ImplOut {
     if kind == "insdel" {
         let (a, b) = (snap_text(&before, dsz), snap_text(&after, dsz));
         if a != b {
-            out = out.fail("c14:snapshot-differs", &format!("before: {a} || after: {b}"));
+            // the one modelled way a range is not restored: an absolute range from line 1 that the insertion
+            // stretches to the last line is afterwards indistinguishable from a whole-column/row range
+            let coord = |p: &Pt| if ax == "r" { p.r } else { p.c };
+            let abs_on_axis = |p: &Pt| if ax == "r" { p.ra } else { p.ca };
+            let becomes_whole = |it: &Item| match it {
+                Item::Fml { atoms, .. } => atoms.iter().any(|at| match at {
+                    Atom::Rng { sheet: rs, a, b, .. } => {
+                        let full = if ax == "r" { is_full_rows(a, b) } else { is_full_cols(a, b) };
+                        *rs == sheet && !full && abs_on_axis(a) && abs_on_axis(b) && coord(a).min(coord(b)) == 1
+                            && coord(a).max(coord(b)) >= pos64 && coord(a).max(coord(b)) + n64 == last(ax)
+                    }
+                    _ => false,
+                }),
+                _ => false,
+            };
+            // only the formulas of such cells may differ
+            let mut other = false;
+            let mut whole = false;
+            for (k, v) in &before.cells {
+                if after.cells.get(k) != Some(v) {
+                    let it = items.iter().find(|it| matches!(it, Item::Fml { s, r, c, .. } if (*s, *r, *c) == *k));
+                    if it.map(becomes_whole).unwrap_or(false) {
+                        whole = true;
+                    } else {
+                        other = true;
+                    }
+                }
+            }
+            if before.cells.len() != after.cells.len() || before.rows != after.rows || before.cols != after.cols || before.links != after.links {
+                other = true;
+            }
+            if whole && !other {
+                out = out.fail("c14:range-becomes-whole-line", &format!("before: {a} || after: {b}"));
+            } else {
+                out = out.fail("c14:snapshot-differs", &format!("before: {a} || after: {b}"));
+            }
         }
         for (k, v) in &before.cells {
-            if after.cells.get(k).map(|w| &w.value) != Some(&v.value) && formula_ok_for_roundtrip(&items, k, ax, sheet, pos64, n64) {
+            if after.cells.get(k).map(|w| &w.value) != Some(&v.value) && !tainted.contains(k) {
                 out = out.fail("c14:value-differs", &format!("{k:?}: {} -> {:?}", v.value, after.cells.get(k).map(|w| w.value.clone())));
             }
         }
     }
     out
-}
-
-fn formula_ok_for_roundtrip(items: &[Item], k: &(u32, i32, i32), ax: &str, sheet: u32, pos: i64, n: i64) -> bool {
-    for it in items {
-        if let Item::Fml { s, r, c, atoms, .. } = it {
-            if (*s, *r, *c) == *k {
-                return formula_in_domain("insdel", ax, sheet, pos, n, 0, atoms);
-            }
-        }
-    }
-    true
 }
 
 fn gen_sheet_kind(ctx: &Ctx, kind: &str, sink: &mut dyn FnMut(String)) {
@@ -1155,6 +1215,18 @@ fn gen_sheet_kind(ctx: &Ctx, kind: &str, sink: &mut dyn FnMut(String)) {
             }
             id += 1;
             items.push(Item::Link { s: 0, r, c: cc, id: format!("{id}") });
+        }
+        if kind == "insdel" && case % 50 == 7 && n > 0 {
+            // F14a witness family: an absolute range from line 1 that the insertion stretches to the last line
+            let lastv = last(ax);
+            let (a, b) = if ax == "r" {
+                (Pt { ra: true, r: 1, ca: true, c: 2 }, Pt { ra: true, r: lastv - n, ca: true, c: 2 })
+            } else {
+                (Pt { ra: true, r: 2, ca: true, c: 1 }, Pt { ra: true, r: 2, ca: true, c: lastv - n })
+            };
+            if used.insert((0, 15, 12)) {
+                items.push(Item::Fml { s: 0, r: 15, c: 12, tpl: "SUM({})".into(), obs: "0".into(), atoms: vec![Atom::Rng { sheet: 0, named: false, a, b }] });
+            }
         }
         let body: Vec<String> = items.iter().map(item_text).collect();
         sink(format!("c12 sheet {api} {ax} {kind} {sheet} {pos} {n} {d} {}", body.join(" ")));
